@@ -128,6 +128,42 @@ def m_unwrap_or_else(it, recv, args, e, mod, discard):
     return it.call_value(f, [v.fields[0]] if v.variant == "Err" else [])
 
 
+@method("ok")
+def m_ok(it, recv, args, e, mod, discard):
+    v = opt(it, recv)
+    if v.variant == "Ok":
+        return some(v.fields[0])
+    if v.variant == "Err":
+        return none()
+    raise InternalError("ok() on %s" % v.variant)
+
+
+@method("err")
+def m_err(it, recv, args, e, mod, discard):
+    v = opt(it, recv)
+    if v.variant == "Err":
+        return some(v.fields[0])
+    if v.variant == "Ok":
+        return none()
+    raise InternalError("err() on %s" % v.variant)
+
+
+@method("and_then")
+def m_and_then(it, recv, args, e, mod, discard):
+    v = opt(it, recv)
+    if v.variant in ("Some", "Ok"):
+        return it.call_value(it.deref(args[0]), [v.fields[0]])
+    return v
+
+
+@method("ok_or")
+def m_ok_or(it, recv, args, e, mod, discard):
+    v = opt(it, recv)
+    if v.variant == "Some":
+        return ok(v.fields[0])
+    return err(args[0])
+
+
 @method("is_ok")
 def m_is_ok(it, recv, args, e, mod, discard):
     return opt(it, recv).variant == "Ok"
@@ -387,6 +423,17 @@ def m_next(it, recv, args, e, mod, discard):
         except StopIteration:
             return none()
     raise InternalError("next on %s" % type(r).__name__)
+
+
+@method("next_if")
+def m_next_if(it, recv, args, e, mod, discard):
+    """Peekable::next_if: consume and return the next item iff the predicate holds for it."""
+    pk = it.resolve(m_peek(it, recv, [], e, mod, False))
+    if pk.variant != "Some":
+        return none()
+    if it.truth(it.call_value(it.deref(args[0]), [pk.fields[0]])):
+        return m_next(it, recv, [], e, mod, False)
+    return none()
 
 
 @method("peek")
